@@ -225,13 +225,14 @@ Definition tbl_target (t : table) (c : nat) : option ent :=
 
 Definition tbl_has_rels (t : table) : bool := match t_rels t with [] => false | _ => true end.
 
-(** Matches: [None] is a nil dereference (relation on a component the table lacks). *)
+(** Matches (as repaired): a relation on a component the table lacks is "no match" (it used to be a
+    nil dereference, modelled as [None]; the result type is kept, [None] no longer occurs). *)
 Fixpoint rels_match (t : table) (rels : list rel) : option bool :=
   match rels with
   | [] => Some true
   | (c, tg) :: rest =>
       match tbl_target t c with
-      | None => None
+      | None => Some false
       | Some x => if ent_eqb tg x then rels_match t rest else Some false
       end
   end.
@@ -366,7 +367,7 @@ Definition arch_get_tables (a : arch) (rels : list rel) : option (list nat) :=
   | (c, tg) :: _ =>
       if negb (arch_has_rels a) then Some (a_tables a)
       else match index_of c (a_comps a) with
-           | None => None                            (* Go: index -1, panics *)
+           | None => Some []                         (* as repaired: the archetype lacks the component, no table matches *)
            | Some idx =>
                match nth_error (a_reltabs a) idx with
                | None => None
